@@ -5,46 +5,128 @@ import (
 	"strings"
 )
 
-// Signature names the defect behind the failed clauses that are new with the last operation of
-// the program: the clauses plus those features of the transition that select the code path in
-// the response writer — operation kind, framing in force, where the head is, whether the
-// operation made the writer emit to the connection — never sizes, offsets or versions.
-func Signature(fresh []Verdict, p Program, r *Result) string {
+func isRF(k string) bool { return k == OpRFB || k == OpRFF || k == OpRFL }
+
+func headClause(c string) bool {
+	return c == "status-mismatch" || c == "header-missing" || strings.HasPrefix(c, "framing-")
+}
+
+func opTimeClause(c string) bool {
+	return strings.HasPrefix(c, "write-") || strings.HasPrefix(c, "readfrom-")
+}
+
+// blame picks the operation a set of failed clauses is attributed to: the operation that
+// panicked; else the first operation whose return value was wrong; else, when a clause about the
+// head failed (status, headers, framing choice), the operation during which the head was
+// encoded; else the last operation. -1 stands for "after the handler returned" (flushResponse).
+func blame(vs []Verdict, p Program, r *Result) int {
+	if r.Panic != "" && r.PanicOp >= 0 && r.PanicOp < len(p.Ops) {
+		return r.PanicOp
+	}
+	for _, v := range vs {
+		if opTimeClause(v.Clause) {
+			var i int
+			if _, err := fmt.Sscanf(v.Detail, "op %d ", &i); err == nil && i < len(p.Ops) {
+				return i
+			}
+		}
+	}
+	for _, v := range vs {
+		if headClause(v.Clause) {
+			for i := range r.Ops {
+				if r.Ops[i].HeadEncoded {
+					return i
+				}
+			}
+			return -1
+		}
+	}
+	return len(p.Ops) - 1
+}
+
+// Signature names the defect behind the failed clauses of a program whose proper prefixes are
+// all clean: the clauses plus those features of the blamed transition that select the code
+// path in the response writer — operation kind, framing in force, where the head is, whether
+// the operation made the writer emit to the connection — never sizes, offsets or versions.
+//
+// ReadFrom gets coarser signatures: it is only usable on a prepared response (status chosen,
+// Content-Length declared, head not yet encoded), so what is named is how the response was
+// unprepared, plus the failure family.
+func Signature(vs []Verdict, p Program, r *Result) string {
 	var cs []string
-	for _, v := range fresh {
+	for _, v := range vs {
 		cs = append(cs, v.Clause)
 	}
 	sig := strings.Join(cs, "+")
-	if len(p.Ops) == 0 || len(r.Ops) == 0 {
-		return sig + " @empty-program"
-	}
-	i := len(p.Ops) - 1
-	if r.Panic != "" && r.PanicOp >= 0 {
-		i = r.PanicOp
-	}
-	if i >= len(p.Ops) {
-		i = len(p.Ops) - 1
+	i := blame(vs, p, r)
+	if i < 0 || i >= len(p.Ops) || i >= len(r.Ops)+1 {
+		return sig + " @end"
 	}
 	op := p.Ops[i]
-	kind := op.K
-	switch op.K {
-	case OpWS:
-		kind = OpW
-	case OpRFF, OpRFL:
-		c := p.Conn
-		if c == "" {
-			c = ConnPlain
-		}
-		kind += "/" + c
-	case OpWH:
-		kind = fmt.Sprintf("WH%d", op.N)
-	}
 	var pre OpResult
 	if i > 0 && i-1 < len(r.Ops) {
 		pre = r.Ops[i-1]
 	}
+	if isRF(op.K) {
+		conn := p.Conn
+		if conn == "" {
+			conn = ConnPlain
+		}
+		for _, c := range cs {
+			if strings.HasPrefix(c, "panic") && op.K == OpRFF && conn == ConnSendfile {
+				return "readfrom-panic file-without-limitedreader-on-sendfile-conn"
+			}
+		}
+		for _, c := range cs {
+			if c == "readfrom-returned-wrong-count" && op.K == OpRFL && conn != ConnSendfile {
+				return "readfrom-wrong-count limitedreader-file-on-" + conn + "-conn"
+			}
+		}
+		pm := ModelOf(Program{Version: p.Version, Ops: p.Ops[:i]})
+		class := ""
+		switch {
+		case pre.HeadEncoded:
+			class = "head-already-encoded"
+		case pm.Body > 0:
+			class = "buffered-body-pending"
+		case pm.HdrZ["Trailer"] != "" || pm.HdrZ["Transfer-Encoding"] != "":
+			class = "chunked-requested"
+		case pm.Level >= 2 && pm.DeclaredCL() >= 0:
+			class = "prepared"
+		case pm.Level >= 2:
+			class = "no-content-length"
+		case pm.DeclaredCL() >= 0:
+			class = "no-status"
+		default:
+			class = "no-status-no-content-length"
+		}
+		fam := "malformed"
+		for _, c := range cs {
+			if strings.HasPrefix(c, "panic") {
+				fam = "panic"
+				break
+			}
+			if opTimeClause(c) {
+				fam = c
+			}
+		}
+		if class == "prepared" {
+			// the one supported usage: keep full detail
+			return "readfrom-" + fam + " prepared " + op.K + "/" + conn + " " + sig
+		}
+		return "readfrom-" + fam + " " + class
+	}
+	kind := op.K
+	switch op.K {
+	case OpWS:
+		kind = OpW
+	case OpCL, OpCT, OpTRD, OpTR, OpTV, OpTE, OpWH:
+		kind = "H" // header / status operations: nothing is emitted, the order among them is irrelevant
+	}
 	head := "unencoded"
 	switch {
+	case kind == "H" && pre.HeadEncoded:
+		head = "encoded"
 	case pre.Wire1 > 0:
 		head = "sent"
 	case pre.HeadEncoded:
@@ -53,16 +135,17 @@ func Signature(fresh []Verdict, p Program, r *Result) string {
 	ctx := " @" + kind + " head=" + head
 	if i < len(r.Ops) {
 		post := r.Ops[i]
+		pm := ModelOf(Program{Version: p.Version, Ops: p.Ops[:i+1]})
 		switch {
 		case post.Chunked:
 			ctx += " chunked"
-		case post.ContentLen > 0:
+		case pm.CLLevel >= 0:
 			ctx += " identity-declared"
 		default:
 			ctx += " identity"
 		}
 		switch op.K {
-		case OpW, OpWS, OpRFB, OpRFF, OpRFL, OpF:
+		case OpW, OpWS, OpF:
 			if post.Wire1 > post.Wire0 {
 				ctx += " emits"
 			} else {
@@ -103,4 +186,88 @@ func OutcomeClass(m *Model, r *Result, vs []Verdict) string {
 		verdict = strings.Join(cs, "+")
 	}
 	return fmt.Sprintf("%d %s%s %s writes=%d -> %s", st, fr, tr, body, len(r.Writes), verdict)
+}
+
+func clauseSet(vs []Verdict) string {
+	var cs []string
+	for _, v := range vs {
+		cs = append(cs, v.Clause)
+	}
+	return strings.Join(cs, "+")
+}
+
+// validProgram checks the side conditions the generator guarantees (file operations line up
+// with the body pattern).
+func validProgram(p Program) bool {
+	off := 0
+	for _, op := range p.Ops {
+		switch op.K {
+		case OpRFF:
+			if op.N != FileLen-off {
+				return false
+			}
+		case OpRFL:
+			if FileLen-off <= op.N {
+				return false
+			}
+		}
+		switch op.K {
+		case OpW, OpWS, OpRFB, OpRFF, OpRFL:
+			off += op.N
+		}
+	}
+	return true
+}
+
+// Minimize removes, one at a time, operations that are irrelevant to a failure (the reduced
+// program is still inside the quantifier — or, like the original, still short of its declared
+// body — and fails exactly the same clauses), so that the signature is computed on a minimal
+// failing program and does not depend on bystander operations.
+func Minimize(e *Env, prog Program, vs []Verdict, opt RunOpt) (Program, []Verdict, *Result) {
+	want := clauseSet(vs)
+	cur, curV := prog, vs
+	var curR *Result
+	for changed := true; changed; {
+		changed = false
+		for i := range cur.Ops {
+			q := Program{Version: cur.Version, Conn: cur.Conn}
+			q.Ops = append(append([]Op{}, cur.Ops[:i]...), cur.Ops[i+1:]...)
+			if !validProgram(q) {
+				continue
+			}
+			m := ModelOf(q)
+			if m.Dead() != "" {
+				continue
+			}
+			r := e.Run(q, opt, false)
+			qv := Judge(m, r, m.Excluded() != "")
+			r.Release(e)
+			if clauseSet(qv) == want {
+				cur, curV, curR = q, qv, r
+				changed = true
+				break
+			}
+		}
+	}
+	if curR == nil {
+		curR = e.Run(cur, opt, false)
+	}
+	return cur, curV, curR
+}
+
+// Sign returns the signature of a failing, untainted node: ReadFrom-blamed failures are named
+// by how the response was unprepared; everything else by the clauses and the context of the
+// blamed operation in a minimal failing program. When a prefix that had not yet completed its
+// declared body already had a wrong wire (Node.Origin) the failure is attributed there.
+func Sign(e *Env, n *Node, opt RunOpt) (sig string, minimal Program) {
+	prog, vs, r := n.Prog, n.Verdicts, n.R
+	if o := n.Origin; o != nil {
+		prog, vs, r = o.Prog, o.Verdicts, o.R
+	}
+	i := blame(vs, prog, r)
+	if i >= 0 && i < len(prog.Ops) && isRF(prog.Ops[i].K) {
+		return Signature(vs, prog, r), prog
+	}
+	mp, mv, mr := Minimize(e, prog, vs, opt)
+	return Signature(mv, mp, mr), mp
 }
